@@ -97,7 +97,88 @@ pub enum CompileOutcome {
     Panic(String),
 }
 
+/// How the final result is compared with the reference.
+pub enum Oracle {
+    /// typed equality with the plaintext result of the source graph
+    Exact,
+    /// the output step is Truncate(scale): documented error bound relative to the exact pre-truncation value
+    Trunc { pre: Value, scale: u128, all_public: bool, wraps: std::cell::Cell<u64>, plus_one: std::cell::Cell<u64>, exact: std::cell::Cell<u64> },
+}
+
+impl Oracle {
+    pub fn accept(&self, t: &Type, got: &Value, reference: &Value) -> bool {
+        match self {
+            Oracle::Exact => crate::vals::typed_eq(t, got, reference),
+            Oracle::Trunc { pre, scale, all_public, wraps, plus_one, exact } => {
+                if *all_public {
+                    return crate::vals::typed_eq(t, got, reference);
+                }
+                if !is_leaf_type(t) {
+                    return false;
+                }
+                let st = t.get_scalar_type();
+                let w = crate::vals::st_bits(st);
+                let mask = crate::vals::st_mask(st);
+                let need = crate::vals::num_elems(t);
+                let g = crate::vals::dec(got, t);
+                let p = crate::vals::dec(pre, t);
+                let r = crate::vals::dec(reference, t);
+                if crate::vals::as_bytes(got).is_none() || g.len() != need || p.len() != need {
+                    return false;
+                }
+                for i in 0..need {
+                    if scale.is_power_of_two() {
+                        let k = scale.trailing_zeros();
+                        // floor quotient (arithmetic shift for signed)
+                        let fl: u128 = if st.is_signed() {
+                            let x = crate::vals::to_signed(p[i], st);
+                            ((x >> k) as u128) & mask
+                        } else {
+                            (p[i] & mask) >> k
+                        };
+                        let d = g[i].wrapping_sub(fl) & mask;
+                        if d == 0 {
+                            exact.set(exact.get() + 1);
+                        } else if d == 1 {
+                            plus_one.set(plus_one.get() + 1);
+                        } else {
+                            return false;
+                        }
+                    } else {
+                        // general divisor, signed: plaintext quotient up to one unit, or the documented wrap-around
+                        // class error = +-M/scale (+-1) where M = 2^w
+                        let d = crate::vals::to_signed(g[i].wrapping_sub(r[i]) & mask, st);
+                        if d.abs() <= 1 {
+                            exact.set(exact.get() + 1);
+                            continue;
+                        }
+                        let x = crate::vals::to_signed(p[i], st);
+                        let small_input = w >= 64 && x.unsigned_abs() < (1u128 << 16);
+                        if small_input {
+                            return false;
+                        }
+                        // M/scale as a real number; accept |d -+ M/scale| <= 2 (mod M)
+                        let m_over = if w >= 128 { (u128::MAX / scale) as i128 } else { ((1u128 << w) / scale) as i128 };
+                        let near = |a: i128, b: i128| {
+                            let diff = (a.wrapping_sub(b)) as u128 & mask;
+                            let sd = crate::vals::to_signed(diff, st);
+                            sd.abs() <= 2
+                        };
+                        if near(d, m_over) || near(d, -m_over) {
+                            wraps.set(wraps.get() + 1);
+                        } else {
+                            return false;
+                        }
+                    }
+                }
+                true
+            }
+        }
+    }
+}
+
 pub struct Compiled {
+    pub oracle: Oracle,
     pub src: Context,
     pub src_instantiated: Context,
     pub compiled: Context,
@@ -150,7 +231,12 @@ pub fn compile_case(case: &Case) -> CompileOutcome {
         Ok(Err(e)) => return CompileOutcome::Rejected(es(e)),
         Ok(Ok(m)) => m.get_context(),
     };
+    let oracle = match build_oracle(case) {
+        Ok(o) => o,
+        Err(e) => return CompileOutcome::Rejected(format!("oracle: {}", e)),
+    };
     CompileOutcome::Ok(Compiled {
+        oracle,
         src,
         src_instantiated,
         compiled,
@@ -159,6 +245,35 @@ pub fn compile_case(case: &Case) -> CompileOutcome {
         out_type,
         compile_ms: t0.elapsed().as_millis(),
     })
+}
+
+fn build_oracle(case: &Case) -> Result<Oracle, String> {
+    use ciphercore_base::graphs::Operation as O;
+    let m = case.prog.main();
+    if let O::Truncate(scale) = m.steps[m.output].op {
+        let dep = m.steps[m.output].deps[0];
+        let mut p2 = case.prog.clone();
+        p2.main_mut().output = dep;
+        let built = p2.build()?;
+        let inst = run_instantiation_pass(built.context).map_err(es)?.get_context();
+        let ins = case.inputs.clone();
+        let pre = guarded(move || {
+            let mut ev = det_evaluator(1);
+            ev.evaluate_context(inst, ins)
+        })
+        .map_err(|p| format!("panic: {}", p))?
+        .map_err(es)?;
+        let all_public = case.owners.iter().all(|o| *o == Owner::Public);
+        return Ok(Oracle::Trunc {
+            pre,
+            scale,
+            all_public,
+            wraps: std::cell::Cell::new(0),
+            plus_one: std::cell::Cell::new(0),
+            exact: std::cell::Cell::new(0),
+        });
+    }
+    Ok(Oracle::Exact)
 }
 
 /// Reference model: the source program itself, evaluated in plaintext.
@@ -264,11 +379,11 @@ pub fn check_global_output(case: &Case, c: &Compiled, out: &Value, reference: &V
         };
         let ok = guarded(|| sum3(&c.out_type, &parts[0], &parts[1], &parts[2]));
         match ok {
-            Ok(s) if crate::vals::typed_eq(&c.out_type, &s, reference) => None,
+            Ok(s) if c.oracle.accept(&c.out_type, &s, reference) => None,
             Ok(_) => Some(Violation { class: "shares-do-not-sum".into(), detail: "three output shares do not add up to the reference".into() }),
             Err(p) => Some(Violation { class: "shared-output-shape".into(), detail: format!("malformed share: {}", p) }),
         }
-    } else if crate::vals::typed_eq(&c.out_type, out, reference) {
+    } else if c.oracle.accept(&c.out_type, out, reference) {
         None
     } else {
         Some(Violation { class: "wrong-output".into(), detail: "compiled graph output differs from the source graph output".into() })
@@ -320,7 +435,7 @@ pub fn check_party_outputs(case: &Case, c: &Compiled, run: &RunResult, reference
             slots.push(av);
         }
         match guarded(|| sum3(&c.out_type, &slots[0], &slots[1], &slots[2])) {
-            Ok(s) if crate::vals::typed_eq(&c.out_type, &s, reference) => None,
+            Ok(s) if c.oracle.accept(&c.out_type, &s, reference) => None,
             Ok(_) => Some(Violation { class: "shares-do-not-sum".into(), detail: "the three agreed slots do not reconstruct the reference".into() }),
             Err(p) => Some(Violation { class: "shared-output-shape".into(), detail: p }),
         }
@@ -335,7 +450,7 @@ pub fn check_party_outputs(case: &Case, c: &Compiled, run: &RunResult, reference
                     })
                 }
                 Some(v) => {
-                    if !crate::vals::typed_eq(&c.out_type, &v, reference) {
+                    if !c.oracle.accept(&c.out_type, &v, reference) {
                         return Some(Violation { class: "wrong-output".into(), detail: format!("output party {} holds a wrong result", p) });
                     }
                 }
